@@ -463,37 +463,79 @@ function optsOf(o) {
 }
 
 // ---- SHA-256 tap (C13 part A) ----
+function applyDigestOp(w, op) {
+  switch (op.o) {
+    case "tag": w.updateTag(op.v); break;
+    case "str": w.updateString(op.v); break;
+    case "num": w.updateNumber(revive(op.v)); break;
+    case "bool": w.updateBoolean(op.v); break;
+    case "null": w.updateNull(); break;
+    default: throw new Error("bad digest op");
+  }
+}
+// the encoding documented in hash.ts (kind byte, big-endian length, UTF-8 payload): only a fallback explanation when the
+// byte stream cannot be tapped any more (an implementation is free to change the encoding)
+function modelBytes(ops) {
+  const parts = [];
+  const lenPrefixed = (kind, str) => {
+    const b = Buffer.from(str, "utf8");
+    const h = Buffer.alloc(5);
+    h[0] = kind;
+    h.writeUInt32BE(b.length, 1);
+    parts.push(h, b);
+  };
+  for (const op of ops) {
+    switch (op.o) {
+      case "tag": lenPrefixed(1, op.v); break;
+      case "str": lenPrefixed(2, op.v); break;
+      case "num": {
+        const n = revive(op.v);
+        lenPrefixed(3, Number.isNaN(n) ? "NaN" : Object.is(n, -0) ? "-0" : String(n));
+        break;
+      }
+      case "bool": parts.push(Buffer.from([op.v ? 4 : 5])); break;
+      case "null": parts.push(Buffer.from([6])); break;
+    }
+  }
+  return Buffer.concat(parts);
+}
 function runDigestSequence(ops) {
   const w = new HASHMOD.Hash256Writer();
   const chunks = [];
   const orig = w.updateBytes;
-  if (typeof orig !== "function") return { error: "Hash256Writer has no updateBytes method to tap" };
-  w.updateBytes = function (data) {
-    chunks.push(Buffer.from(data));
-    return orig.call(this, data);
-  };
-  const incomplete = [];
+  const tappable = typeof orig === "function";
+  if (tappable) {
+    w.updateBytes = function (data) {
+      chunks.push(Buffer.from(data));
+      return orig.call(this, data);
+    };
+  }
+  let payload = 0;
   for (const op of ops) {
-    const before = chunks.length;
-    switch (op.o) {
-      case "tag": w.updateTag(op.v); break;
-      case "str": w.updateString(op.v); break;
-      case "num": w.updateNumber(revive(op.v)); break;
-      case "bool": w.updateBoolean(op.v); break;
-      case "null": w.updateNull(); break;
-      default: throw new Error("bad digest op");
-    }
-    // an encoding that is to be canonical must carry every byte of the text it is given: the bytes fed to the hash
-    // during this write contain the UTF-8 form of the string
-    if (op.o === "str" || op.o === "tag") {
-      const fed = Buffer.concat(chunks.slice(before));
-      if (fed.indexOf(Buffer.from(op.v, "utf8")) < 0) incomplete.push({ op: op.o, utf8_bytes: Buffer.byteLength(op.v, "utf8"), fed_bytes: fed.length });
-    }
+    applyDigestOp(w, op);
+    if (op.o === "str" || op.o === "tag") payload += Buffer.byteLength(op.v, "utf8");
   }
   const got = w.digestHex();
   const all = Buffer.concat(chunks);
-  const want = crypto.createHash("sha256").update(all).digest("hex");
-  return { got, want, bytes: all.length, incomplete };
+  const sha = (b) => crypto.createHash("sha256").update(b).digest("hex");
+  // the tap saw the stream only if it saw at least the text that was written
+  const tapComplete = tappable && all.length >= payload && (ops.length === 0 || all.length > 0);
+  const want = sha(all);
+  const model = sha(modelBytes(ops));
+  // encoding-independent: a digest must depend on every character of every string it is given
+  const insensitive = [];
+  ops.forEach((op, i) => {
+    if ((op.o !== "str" && op.o !== "tag") || op.v.length === 0) return;
+    const cps = Array.from(op.v);
+    for (const pos of [cps.length - 1, Math.floor(cps.length / 2)]) {
+      const alt = cps.slice();
+      alt[pos] = alt[pos] === "y" ? "z" : "y";
+      const w2 = new HASHMOD.Hash256Writer();
+      ops.forEach((o2, j) => applyDigestOp(w2, j === i ? { ...o2, v: alt.join("") } : o2));
+      if (w2.digestHex() === got) insensitive.push({ op: i, position: pos, of: cps.length });
+    }
+  });
+  return { got, want, model, tapComplete, bytes: all.length, payload, insensitive };
 }
 
 // ---- queries ----
